@@ -446,6 +446,7 @@ type SymLog struct {
 }
 
 type LogEntry struct {
+	Key    string // full contract key; two different keys with the same short name make the name ambiguous
 	Callee string
 	Args   []Val
 	Res    []Val
